@@ -23,11 +23,14 @@ window tokens.
 What `line` fields hold: a statement node the line (`Y.sl`) of its FIRST token (令 如果 每当 遍历 以 输出 抛出 如何 定义 结束循环 继续循环);
 an identifier the line of its token; a binary expression the line of its operator token; `{ e }` puts the line of `{` on the top
 node of `e` (so do `（`, `【`, 以 for calls, literals, method calls); `x 之 p` and `其 p` hold line 0, `x # i` the line of `#`; the calls of a
-method-call chain hold line 0; methods and getters inside a 定义, 导入 nodes and the empty statement of a `；` hold line 0 (the Go code
-never sets them); an expression statement is the expression (`以 x（m）` as a statement: the line of 以).
+method-call chain hold line 0; methods and getters inside a 定义 and the empty statement of a `；` hold line 0 (the Go code never sets
+them); a 导入 node holds the line of its 导入 token (`ParseProgram`: `setStmtCurrentLine(stmt, tk)` — before that repair it stayed 0, and
+the relation said 0: `import_lines_recorded`); an expression statement is the expression (`以 x（m）` as a statement: the line of 以).
 
 Variants: every theorem here holds for every `Variant` `v` of the parser model — in particular for `Variant.legacy` (the pinned Go
-tree) and `Variant.fixed` (the repaired one): on a rendering none of the three repaired places is reached.
+tree) and `Variant.fixed` (the repaired one): on a rendering none of the repaired places the variant switches is reached (statement
+after a 拦截 block, 如果 at end of input, error builder without current token, position of the left-over-token error).  The line of
+a 导入 node is not under the variant (Model/Parser.lean, header): every variant records it.
 
 Fuel: `16 * (number of tokens) + c` (`c` = 20 for a statement, 22 for a block, 48 for a body, 52 for a program) — linear in the input.
 -/
@@ -105,13 +108,27 @@ theorem parse_body_roundtrip {x : ExecBlock} {d : Nat} {ts : List Token} (h : Li
     parse v (layoutOps Y) n (.execBlock d) (S Y p1 (ts ++ rest) false) = .ok x (S Y ts.getLast? rest true) :=
   (linN_claim (v := v) h).2.2 p1 rest ho ha n hn
 
-/-- **parse_statements_roundtrip** (level 4).  Every rendering of a program — 导入 statements, 输入 line, statements (simple ones,
+/-- **parse_statements_roundtrip** (level 4).  Every rendering of a program — 导入 statements (each with any number of `；` after it on
+its line: ‹导入语句› [‹间隔符› ‹导入语句›]*), 输入 line, statements (simple ones,
 `令：` with its pairs, 如果/再如/否则, 每当, 遍历 with 0, 1, 2 names, 如何 / 如何新建 with 输入 lines and 拦截 handlers, 定义 with 其 properties,
 methods and 何为 getters, all nested to any depth), then 拦截 handlers — read against any layout in which the tokens come in reading order, parses, for every fuel from
 `16 * tokens + 52` on, to exactly that program. -/
 theorem parse_statements_roundtrip {p : Program} {ts : List Token} (h : LinProgram Y p ts) (ho : Y.InOrder ts) (n : Nat)
     (hn : 16 * ts.length + 52 ≤ n) : parseLaidOut v Y n ts = .tree p :=
   program_roundtrip h ho n hn
+
+/-- **import_lines_recorded**: a program that opens with 导入 statements (rendered by `ti`, body rendered by `tx`) parses to the tree
+whose import nodes carry, in order, the lines of the 导入 tokens of `ti` (`importKws ti`: the tokens of type 导入 — a rendered import
+holds exactly one, its first) — wherever those lines are: after blank lines, comment lines, or on one line together, with or
+without `；` after them (`hsemi`: a body that starts with `；` does so on a later line — a `；` on the line of the last import is part of
+`ti`). -/
+theorem import_lines_recorded {d : Nat} {ims : List Import} {ti : List Token} {x : ExecBlock} {tx : List Token} (hne : ti ≠ [])
+    (hi : LinImports Y d ims ti) (hx : LinN Y d (.exec x) tx)
+    (hsemi : (Y.peek tx).type = cTypeStmtSep → Y.jf ti.getLast? (Y.peek tx) = true) (ho : Y.InOrder (ti ++ tx)) (n : Nat)
+    (hn : 16 * (ti ++ tx).length + 52 ≤ n) :
+    parseLaidOut v Y n (ti ++ tx) = .tree { imports := ims, exec := some x } ∧
+      ims.map (·.line) = (importKws ti).map Y.sl :=
+  ⟨parse_statements_roundtrip v (.importsBody d ims ti x tx hne hi hx hsemi) ho n hn, linImports_lines hi⟩
 
 /-- **rendering_unambiguous**: tokens and layout determine the tree — a token list read against a layout renders at most one
 program (whatever `LinProgram` derivations exist, they end in the tree the parser builds). -/
@@ -264,6 +281,88 @@ example : LinStmt exY (.while (exY.sl b1) (idE b2) (some [.ret (exY.sl c1) (idE 
   have hbrk : LinN exY 1 (.stmt (.break (exY.sl d1))) [d1] := .simple 1 _ _ (.breakStmt d1 rfl)
   exact .whileStmt 0 b1 b3 _ [b2] _ _ rfl (lin_id b2 rfl) rfl (by decide) (by decide) (by simp)
     (.blockCons 1 _ _ _ _ hret (by decide) (.blockCons 1 _ _ _ _ hbrk (by decide) (.blockNil 1) (Or.inl rfl)) (Or.inr (by decide)))
+
+-- non-vacuity of `import_lines_recorded`: two 导入 statements on lines 1 and 2 (line 0 holds a comment, i.e. no token), a body on line 3
+/-- four lines starting at characters 0, 10, 20, 30 -/
+def imY : Layout :=
+  { lines := #[{ indents := 0, startIdx := 0 }, { indents := 0, startIdx := 10 }, { indents := 0, startIdx := 20 },
+               { indents := 0, startIdx := 30 }],
+    eofIdx := 40, ne := by decide }
+-- 导入 《库》
+private def i1 := tk cTypeImportW 10 12
+private def i2 := tk cTypeLibString 12 15 [0x5E93]
+-- 导入 “文” 之 甲
+private def j1 := tk cTypeImportW 20 22
+private def j2 := tk cTypeString 22 25 [0x6587]
+private def j3 := tk cTypeObjDotW 25 26
+private def j4 := tk cTypeIdentifier 26 27 [0x7532]
+-- 结束循环
+private def k1 := tk cTypeBreakW 30 34
+
+theorem imports_rendered : LinImports imY 0
+    [{ line := imY.sl i1, libType := libTypeOf i2, name := some (runesToString i2.literal), items := [] },
+     { line := imY.sl j1, libType := libTypeOf j2, name := some (runesToString j2.literal), items := [imY.idOf j4] }]
+    ([i1, i2] ++ ([] ++ ([j1, j2, j3, j4] ++ ([] ++ [])))) :=
+  .cons _ _ [] _ _ (.plain i1 i2 rfl (by decide) (by decide)) (by decide) (.nil _)
+    (.cons _ _ [] _ _ (.items j1 j2 j3 _ [j4] rfl (by decide) (by decide) (.one j4 rfl) (by decide)) (by decide) (.nil _) .nil)
+
+private theorem k1_body : LinN imY 0 (.exec (.mk [] (some [.break (imY.sl k1)]) [])) ([k1] ++ []) :=
+  .execPlain 0 _ _ [] [] (.blockCons 0 _ _ _ _ (.simple 0 _ _ (.breakStmt k1 rfl)) (by decide) (.blockNil 0) (Or.inl rfl))
+    (.handNil 0) (Or.inl rfl) (by simp)
+
+example : ∀ v : Variant, (match parseLaidOut v imY 300 ([i1, i2] ++ ([] ++ ([j1, j2, j3, j4] ++ ([] ++ []))) ++ ([k1] ++ [])) with
+    | .tree ⟨ims, _⟩ => ims.map (·.line) = [1, 2]
+    | _ => False) := by
+  intro v
+  have h := import_lines_recorded v (by simp) imports_rendered k1_body (by decide) (by decide) 300 (by decide)
+  rw [h.1]
+  exact h.2
+
+-- `；` after 导入 statements: line 1 reads `导入《库》；导入“文”之甲；；`, the body is on line 3
+/-- four lines starting at characters 0, 10, 50, 60 -/
+def imZ : Layout :=
+  { lines := #[{ indents := 0, startIdx := 0 }, { indents := 0, startIdx := 10 }, { indents := 0, startIdx := 50 },
+               { indents := 0, startIdx := 60 }],
+    eofIdx := 70, ne := by decide }
+private def s1 := tk cTypeStmtSep 15 16
+private def j1' := tk cTypeImportW 16 18
+private def j2' := tk cTypeString 18 21 [0x6587]
+private def j3' := tk cTypeObjDotW 21 22
+private def j4' := tk cTypeIdentifier 22 23 [0x7532]
+private def s2 := tk cTypeStmtSep 23 24
+private def s3 := tk cTypeStmtSep 24 25
+private def k1' := tk cTypeBreakW 60 64
+
+theorem imports_semicolons_rendered : LinImports imZ 0
+    [{ line := imZ.sl i1, libType := libTypeOf i2, name := some (runesToString i2.literal), items := [] },
+     { line := imZ.sl j1', libType := libTypeOf j2', name := some (runesToString j2'.literal), items := [imZ.idOf j4'] }]
+    ([i1, i2] ++ ([s1] ++ ([j1', j2', j3', j4'] ++ ([s2, s3] ++ [])))) :=
+  .cons _ _ [s1] _ _ (.plain i1 i2 rfl (by decide) (by decide)) (by decide) (.cons _ s1 [] rfl (by decide) (.nil _))
+    (.cons _ _ [s2, s3] _ _ (.items j1' j2' j3' _ [j4'] rfl (by decide) (by decide) (.one j4' rfl) (by decide)) (by decide)
+      (.cons _ s2 [s3] rfl (by decide) (.cons _ s3 [] rfl (by decide) (.nil _))) .nil)
+
+private theorem k1'_body : LinN imZ 0 (.exec (.mk [] (some [.break (imZ.sl k1')]) [])) ([k1'] ++ []) :=
+  .execPlain 0 _ _ [] [] (.blockCons 0 _ _ _ _ (.simple 0 _ _ (.breakStmt k1' rfl)) (by decide) (.blockNil 0) (Or.inl rfl))
+    (.handNil 0) (Or.inl rfl) (by simp)
+
+/-- two imports on one line separated by `；`, two more `；` after the second: both import nodes, both on line 1, and NO empty
+statement in the body — for every variant -/
+example : ∀ v : Variant, parseLaidOut v imZ 300 [i1, i2, s1, j1', j2', j3', j4', s2, s3, k1'] =
+    .tree { imports := [{ line := 1, libType := 1, name := some (runesToString i2.literal), items := [] },
+                        { line := 1, libType := 2, name := some (runesToString j2'.literal), items := [imZ.idOf j4'] }],
+            exec := some (.mk [] (some [.break 3]) []) } := by
+  intro v
+  exact (import_lines_recorded v (by simp) imports_semicolons_rendered k1'_body (by decide) (by decide) 300 (by decide)).1
+
+/-- independently of the theorem, by evaluation of the parser model: `；` after imports, no empty statement -/
+example : (match parseLaidOut Variant.fixed imZ 300 [i1, i2, s1, j1', j2', j3', j4', s2, s3, k1'] with
+    | .tree ⟨[⟨1, 1, some _, []⟩, ⟨1, 2, some _, [⟨1, _⟩]⟩], some (.mk [] (some [.break 3]) [])⟩ => true
+    | _ => false) = true := by decide +kernel
+
+/-- a `；` on a LATER line is not part of the import section: it is the empty statement it always was -/
+example : (match parseLaidOut Variant.fixed imZ 300 [i1, i2, tk cTypeStmtSep 50 51, k1'] with
+    | .tree ⟨[⟨1, 1, some _, []⟩], some (.mk [] (some [.empty 0, .break 3]) [])⟩ => true
+    | _ => false) = true := by decide +kernel
 
 /-- a comment token (positions do not matter: the parser drops it before looking at lines) -/
 private def cm (a : Nat) : Token := tk cTypeComment a (a + 1)
